@@ -910,6 +910,7 @@ def run(repo: Repo, ctx) -> None:
     _r11(repo, ctx)
     _r12(repo, ctx)
     _r13(repo, ctx)
+    _r14(repo, ctx)
 
 
 
@@ -1065,3 +1066,72 @@ def _r13(repo: Repo, ctx) -> None:
            f'instance value of a setting the session overrides and two '
            f'sessions that differ only in that override share a cache key',
            f.loc, sample=why)
+
+
+
+def _r14(repo: Repo, ctx) -> None:
+    """C19.R14 building a config object from an operation's payload does not
+    take anything out of the payload.  `from_pyvalue` copies the top-level
+    dict only; the nested dicts it walks are the ones that live inside
+    `Operation.value`, and the same operation is applied more than once
+    (compile-time state and run-time state, a cached CONFIGURE unit executed
+    again, `coerce_value()` followed by `apply()`).  A `pop` / `del` on a
+    nested value makes the second application see a different payload (the
+    `_tname` of a nested object gone: the declared base type is built
+    instead of the subtype)."""
+    ctx.floor('C19.R14', 1)
+    cls = repo.cls('edb.server.config.types.CompositeConfigType')
+    f = repo.find_method(cls.qualname, 'from_pyvalue')
+    if f is None:
+        raise AnalysisError('C19.R14: CompositeConfigType.from_pyvalue not '
+                            'found')
+    ctx.saw(f)
+    params = f.params()
+    loops = [l for l in ast.walk(f.node) if isinstance(l, ast.For)
+             and isinstance(l.iter, ast.Call)
+             and isinstance(l.iter.func, ast.Attribute)
+             and l.iter.func.attr in ('items', 'values')
+             and isinstance(l.iter.func.value, ast.Name)
+             and l.iter.func.value.id in params]
+    if not loops:
+        raise AnalysisError('C19.R14: the loop over the payload\'s fields '
+                            'was not found in from_pyvalue')
+    for l in loops:
+        tg = l.target
+        var = tg.elts[-1].id if isinstance(tg, ast.Tuple) and isinstance(
+            tg.elts[-1], ast.Name) else (tg.id if isinstance(tg, ast.Name)
+                                         else None)
+        if var is None:
+            raise AnalysisError('C19.R14: loop target not recognised')
+        copies = [st.lineno for st in ast.walk(l)
+                  if isinstance(st, ast.Assign) and any(
+                      isinstance(t, ast.Name) and t.id == var
+                      for t in st.targets) and (
+                      (isinstance(st.value, ast.Call) and (
+                          norm(st.value.func) in ('dict', 'copy.copy',
+                                                  'copy.deepcopy')
+                          or (isinstance(st.value.func, ast.Attribute)
+                              and st.value.func.attr == 'copy')))
+                      or isinstance(st.value, ast.Dict))]
+        destr = []
+        for x in ast.walk(l):
+            if isinstance(x, ast.Call) and isinstance(
+                    x.func, ast.Attribute) and x.func.attr in (
+                    'pop', 'popitem', 'clear') and isinstance(
+                    x.func.value, ast.Name) and x.func.value.id == var:
+                destr.append(x)
+            if isinstance(x, ast.Delete) and any(
+                    isinstance(t, ast.Subscript) and isinstance(
+                        t.value, ast.Name) and t.value.id == var
+                    for t in x.targets):
+                destr.append(x)
+        bad = [d for d in destr
+               if not any(c < d.lineno for c in copies)]
+        ctx.ob('C19.R14', f'from_pyvalue:payload-not-consumed@{var}', not bad,
+               f'from_pyvalue removes something from a nested value of its '
+               f'payload (`{norm(bad[0])[:60] if bad else ""}`): the dict '
+               f'belongs to the Operation being applied, and the next '
+               f'application of the same operation builds a different '
+               f'object from it', f'{f.module.rel()}:'
+               f'{bad[0].lineno if bad else l.lineno}',
+               sample=f'no pop/del on `{var}` without copying it first')
